@@ -26,15 +26,17 @@ AncTable(par) == [c \in DOMAIN par |-> AncOf(par, {c})]
 AncSet(A, S) == UNION {A[c] : c \in S}
 HeadsT(A, S) == {c \in S : ~\E d \in S : d # c /\ c \in A[d]}
 RootsT(A, S) == {c \in S : ~\E a \in S : a # c /\ a \in A[c]}
-IsLinear(par, rng) ==      \* the range is one chain
-  \A c, d \in rng : IsAncestor(par, c, d) \/ IsAncestor(par, d, c)
+IsLinearT(A, rng) ==       \* the range is one chain
+  \A c, d \in rng : c \in A[d] \/ d \in A[c]
 
-MonotoneBad(par, rng, X) == \A c \in X : \A d \in rng : IsAncestor(par, c, d) => d \in X
+MonotoneBadT(A, rng, X) == \A c \in X : \A d \in rng : c \in A[d] => d \in X
+MonotoneBad(par, rng, X) == MonotoneBadT(AncTable(par), rng, X)
 WellPosed(q) ==
+  LET A == AncTable(q.par) IN
   /\ TopoNumbered(q.par)
   /\ q.rng \subseteq DOMAIN q.par /\ q.X \subseteq q.rng /\ q.S \subseteq q.rng
-  /\ Heads(q.par, q.rng) \subseteq q.X
-  /\ MonotoneBad(q.par, q.rng, q.X)
+  /\ HeadsT(A, q.rng) \subseteq q.X
+  /\ MonotoneBadT(A, q.rng, q.X)
 
 Outcome(q, c) == IF c \in q.S THEN "skip" ELSE IF c \in q.X THEN "bad" ELSE "good"
 
@@ -99,24 +101,25 @@ Done ==
 (* --- CONTRACTS --------------------------------------------------------------- *)
 NoRepeat(ev) == \A i, j \in 1..Len(ev) : i # j => ev[i] # ev[j]
 AsksInsideRange(q, ev) == \A i \in 1..Len(ev) : ev[i] \in q.rng
-FirstBad(q) == Roots(q.par, q.X)
+FirstBad(q) == RootsT(AncTable(q.par), q.X)
 
 (* Shape of the known finding (DESIGN 7): two incomparable first-bad commits *)
 (* below one head of the range.                                             *)
 TwoFirstBadUnderOneHead(q) ==
-  \E h \in Heads(q.par, q.rng) : \E r1, r2 \in FirstBad(q) :
-     r1 # r2 /\ IsAncestor(q.par, r1, h) /\ IsAncestor(q.par, r2, h)
+  LET A == AncTable(q.par)  fb == RootsT(A, q.X) IN
+  \E h \in HeadsT(A, q.rng) : \E r1, r2 \in fb : r1 # r2 /\ r1 \in A[h] /\ r2 \in A[h]
 
 CeilLog2(n) == CHOOSE k \in 0..32 : 2^k >= n /\ (k = 0 \/ 2^(k - 1) < n)
 
 (* verdict on a finished run: the first failing clause, or "ok" *)
 RunVerdict(q, ev, res) ==
+  LET fb == FirstBad(q) IN
   IF ~NoRepeat(ev) THEN "NeverAsksTwice"
   ELSE IF ~AsksInsideRange(q, ev) THEN "AsksInsideRange"
   ELSE IF q.S = {} /\ q.rng # {} /\ res.kind # "found" THEN "FindsWithoutSkips"
-  ELSE IF q.S = {} /\ q.rng # {} /\ (res.bad = {} \/ ~(res.bad \subseteq FirstBad(q))) THEN "ReportedAreFirstBad"
-  ELSE IF q.S = {} /\ q.rng # {} /\ res.bad # FirstBad(q) THEN "ReportsAllFirstBad"
-  ELSE IF q.S = {} /\ IsLinear(q.par, q.rng) /\ q.rng # {}
+  ELSE IF q.S = {} /\ q.rng # {} /\ (res.bad = {} \/ ~(res.bad \subseteq fb)) THEN "ReportedAreFirstBad"
+  ELSE IF q.S = {} /\ q.rng # {} /\ res.bad # fb THEN "ReportsAllFirstBad"
+  ELSE IF q.S = {} /\ q.rng # {} /\ IsLinearT(AncTable(q.par), q.rng)
           /\ Len(ev) > CeilLog2(Cardinality(q.rng)) + 1 THEN "LogStepsOnLinearRange"
   ELSE IF q.S # {} /\ ~(res.bad \subseteq q.X) THEN "NeverNamesGoodAsBad"
   ELSE "ok"
